@@ -558,6 +558,17 @@ impl ShellEnvironment {
             var.export();
         }
 
+        // As in bash, a readonly global variable cannot be shadowed by a local or by a
+        // temporary assignment either.
+        let name = name.into();
+        if !matches!(target_scope, EnvironmentScope::Global)
+            && self.get(&name).is_some_and(|(scope, existing)| {
+                matches!(scope, EnvironmentScope::Global) && existing.is_readonly()
+            })
+        {
+            return Err(error::ErrorKind::ReadonlyVariable.into());
+        }
+
         for (scope_type, map) in self.scopes.iter_mut().rev() {
             if *scope_type == target_scope {
                 let prev_var = map.set(name, var);
